@@ -18,26 +18,27 @@ IdM == <<1,0,0, 0,1,0, 0,0,1>>
 Shift(x, y) == [o |-> <<x, y, 0>>, m |-> IdM]
 
 (* parameter sets of a cell: mat (0 = void), rho class, imp, fill, u, trcl shift *)
-Params == [mat : {0, 1, 2}, rho : {1, 2}, imp : {0, 1}, fill : {0, 1, 2}, u : {0}, ty : {0, 1}]
+(* ft: the FILL carries a transformation (0 = none, 1 = shift (0 1 1)); it belongs to the FILL keyword: *)
+(* a BUT list that gives FILL replaces universe AND transformation (none if it gives none)              *)
+Params == [mat : {0, 1, 2}, rho : {1, 2}, imp : {0, 1}, fill : {0, 1, 2}, u : {0}, ty : {0, 1}, ft : {0, 1}]
 Keys == {"mat", "rho", "imp", "fill", "u"}
 (* ExpandLike: parameters of the LIKE cell = base parameters overridden by the BUT list *)
-Override(base, but, vals) == [k \in DOMAIN base |-> IF k \in but THEN vals[k] ELSE base[k]]
+Override(base, but, vals) ==
+  [k \in DOMAIN base |-> IF k \in but THEN vals[k]
+                          ELSE IF k = "ft" /\ "fill" \in but THEN vals.ft
+                          ELSE base[k]]
 
 VARIABLES pc, base, c2, c3, chain3
-Init == pc = "base" /\ base = [mat |-> 0, rho |-> 1, imp |-> 1, fill |-> 0, u |-> 0, ty |-> 0]
+Init == pc = "base" /\ base = [mat |-> 0, rho |-> 1, imp |-> 1, fill |-> 0, u |-> 0, ty |-> 0, ft |-> 0]
         /\ c2 = <<>> /\ c3 = <<>> /\ chain3 = 1
-Base == pc = "base" /\ \E p \in Params : (p.mat = 0 => p.rho = 1) /\ p.imp = 1 /\ base' = p
+Base == pc = "base" /\ \E p \in Params : (p.mat = 0 => p.rho = 1) /\ p.imp = 1 /\ (p.fill = 0 => p.ft = 0) /\ base' = p
         /\ pc' = "c2" /\ UNCHANGED <<c2, c3, chain3>>
-ChooseBut(next) ==
-  \E but \in SUBSET Keys, v \in [mat : {1, 2}, rho : {1, 2}, imp : {0, 1}, fill : {0, 1, 2}, u : {0, 3}] :
-     /\ ("mat" \in but) => TRUE
-     /\ next = [but |-> but, vals |-> v]
 C2 == pc = "c2" /\ (\E x \in { [but |-> b, vals |-> v] : b \in SUBSET Keys,
-                                  v \in [mat : {1, 2}, rho : {1, 2}, imp : {0, 1}, fill : {0, 1, 2}, u : {0, 3}] } :
+                                  v \in [mat : {1, 2}, rho : {1, 2}, imp : {0, 1}, fill : {0, 1, 2}, u : {0, 3}, ft : {0, 1}] } :
                         c2' = x)
       /\ pc' = "c3" /\ UNCHANGED <<base, c3, chain3>>
 C3 == pc = "c3" /\ (\E x \in { [but |-> b, vals |-> v] : b \in SUBSET Keys,
-                                  v \in [mat : {1, 2}, rho : {1, 2}, imp : {0, 1}, fill : {0, 1, 2}, u : {0, 3}] },
+                                  v \in [mat : {1, 2}, rho : {1, 2}, imp : {0, 1}, fill : {0, 1, 2}, u : {0, 3}, ft : {0, 1}] },
                        ch \in {1, 2} : c3' = x /\ chain3' = ch)
       /\ pc' = "emit" /\ UNCHANGED <<base, c2>>
 
@@ -52,21 +53,22 @@ S(n) == <<"S", n, 0>>
 MkCell(n, p, shift, like, but) ==
   [n |-> n, geom |-> <<"*", S(1), S(-2)>>, mat |-> p.mat, rho |-> IF p.mat = 0 THEN 0 ELSE p.rho,
    imp |-> p.imp, fill |-> p.fill, u |-> p.u,
+   hasftr |-> (p.fill # 0 /\ p.ft = 1), ftr |-> [o |-> <<0, 1, 1>>, m |-> IdM],
    hastrcl |-> (shift # 0 \/ p.ty # 0), trcl |-> Shift(shift, p.ty), like |-> like, but |-> but]
 Deck == << MkCell(1, base, 0, 0, {}),
            MkCell(2, Eff2, 2, 1, c2.but \cup {"trcl"}),
            MkCell(3, Eff3, 4, chain3, c3.but \cup {"trcl"}),
-           [n |-> 4, geom |-> S(-1), mat |-> 0, rho |-> 0, imp |-> 1, fill |-> 0, u |-> 0,
+           [n |-> 4, geom |-> S(-1), mat |-> 0, rho |-> 0, imp |-> 1, fill |-> 0, u |-> 0, hasftr |-> FALSE, ftr |-> Shift(0, 0),
             hastrcl |-> FALSE, trcl |-> Shift(0, 0), like |-> 0, but |-> {}],
-           [n |-> 5, geom |-> S(4), mat |-> 0, rho |-> 0, imp |-> 0, fill |-> 0, u |-> 0,
+           [n |-> 5, geom |-> S(4), mat |-> 0, rho |-> 0, imp |-> 0, fill |-> 0, u |-> 0, hasftr |-> FALSE, ftr |-> Shift(0, 0),
             hastrcl |-> FALSE, trcl |-> Shift(0, 0), like |-> 0, but |-> {}],
-           [n |-> 11, geom |-> S(-11), mat |-> 1, rho |-> 1, imp |-> 1, fill |-> 0, u |-> 1,
+           [n |-> 11, geom |-> S(-11), mat |-> 1, rho |-> 1, imp |-> 1, fill |-> 0, u |-> 1, hasftr |-> FALSE, ftr |-> Shift(0, 0),
             hastrcl |-> FALSE, trcl |-> Shift(0, 0), like |-> 0, but |-> {}],
-           [n |-> 12, geom |-> S(11), mat |-> 2, rho |-> 2, imp |-> 1, fill |-> 0, u |-> 1,
+           [n |-> 12, geom |-> S(11), mat |-> 2, rho |-> 2, imp |-> 1, fill |-> 0, u |-> 1, hasftr |-> FALSE, ftr |-> Shift(0, 0),
             hastrcl |-> FALSE, trcl |-> Shift(0, 0), like |-> 0, but |-> {}],
-           [n |-> 21, geom |-> S(-21), mat |-> 0, rho |-> 0, imp |-> 1, fill |-> 0, u |-> 2,
+           [n |-> 21, geom |-> S(-21), mat |-> 0, rho |-> 0, imp |-> 1, fill |-> 0, u |-> 2, hasftr |-> FALSE, ftr |-> Shift(0, 0),
             hastrcl |-> FALSE, trcl |-> Shift(0, 0), like |-> 0, but |-> {}],
-           [n |-> 22, geom |-> S(21), mat |-> 1, rho |-> 2, imp |-> 1, fill |-> 0, u |-> 2,
+           [n |-> 22, geom |-> S(21), mat |-> 1, rho |-> 2, imp |-> 1, fill |-> 0, u |-> 2, hasftr |-> FALSE, ftr |-> Shift(0, 0),
             hastrcl |-> FALSE, trcl |-> Shift(0, 0), like |-> 0, but |-> {}] >>
 Emit == pc = "emit" /\ Valid /\ PrintT(ToJson([cells |-> Deck, surfs |-> Surfs, chain3 |-> chain3]))
         /\ pc' = "done" /\ UNCHANGED <<base, c2, c3, chain3>>
